@@ -142,29 +142,9 @@ func (z *ZodUnion[T, R]) MustParse(input any, ctx ...*core.ParseContext) R {
 
 // StrictParse validates input with compile-time type safety.
 func (z *ZodUnion[T, R]) StrictParse(input T, ctx ...*core.ParseContext) (R, error) {
-	constrained, ok := convertToUnionConstraint[T, R](input)
-	if !ok {
-		var zero R
-		if len(ctx) == 0 {
-			ctx = []*core.ParseContext{core.NewParseContext()}
-		}
-		return zero, issues.CreateTypeConversionError(
-			fmt.Sprintf("%T", input),
-			"union constraint type",
-			any(input),
-			ctx[0],
-		)
-	}
-
-	return engine.ParseComplexStrict[any, R](
-		constrained,
-		&z.internals.ZodTypeInternals,
-		core.ZodTypeUnion,
-		z.extractType,
-		z.extractPtr,
-		z.validate,
-		ctx...,
-	)
+	// StrictParse must answer exactly what Parse answers: the statically typed input is a valid
+	// Parse input, so run the one pipeline.
+	return z.Parse(input, ctx...)
 }
 
 // MustStrictParse is like StrictParse but panics on validation failure.
